@@ -1238,12 +1238,15 @@ func EvalExpression(exprSrc string, rootValue interface{}, stdout io.Writer) (*C
 	cell, err := ev.evalExpr(expr)
 	switch err {
 	case nil:
-		if cell.Value.Tag == ValueNil {
-			// a selector that finds nothing selects a plain null, not a
-			// placeholder still attached to the value it was looked up in
-			return NewCell(NewValue(nil)), nil
+		// the selection becomes $ the way BEGINFILE { $ = selector } assigns
+		// it: a scalar (or the null of a selector that finds nothing) is a
+		// copy detached from the value it was looked up in, a container is
+		// shared and a function cannot be selected
+		selected, err := copyValue(cell, NewCell(Value{Tag: ValueUnknown}))
+		if err != nil {
+			return nil, ev.error(expr.Token(), err.Error())
 		}
-		return cell, nil
+		return selected, nil
 	case errNext, errBreak, errContinue, errReturn:
 		// control flow that escaped the expression, the result is null
 		return NewCell(NewValue(nil)), nil
